@@ -437,12 +437,7 @@ func main() {
 		seen[k] = true
 		cases = append(cases, Case{Idx: append([]int{}, idx...), Entry: "ContainerEdits.Apply"})
 	}
-	if r.Thorough() {
-		total := hx.Product(radix)
-		for i := int64(0); i < total; i++ {
-			add(hx.Digits(i, radix))
-		}
-	} else {
+	{
 		// all pairs of dimensions, the other dimensions at "none/nil" and at a busy default
 		busy := []int{2, 2, 1, 1, 4, 12, 6, 8, 4, 1}
 		for _, def := range [][]int{make([]int, len(dims)), busy} {
@@ -468,6 +463,12 @@ func main() {
 				}
 			}
 		}
+	}
+	// thorough: the full product is enumerated by index further down (streamed: tens of millions of
+	// cases are not kept in memory); the pairs set is then only used for the second pass
+	pairSet := cases
+	if r.Thorough() {
+		cases = nil
 	}
 	// the other two entry points on every case whose edit list is a non-empty, valid edit list (subsampled by construction: pairs set)
 	base := len(cases)
@@ -497,18 +498,32 @@ func main() {
 		_ = os.MkdirAll(d, 0o755)
 		scr <- d
 	}
-	r.ParallelL(int64(len(cases)), func(i int64, l *hx.Local) {
-		d := <-scr
-		res := eval(cases[i], d)
-		scr <- d
+	record := func(l *hx.Local, c Case, d string) {
+		res := eval(c, d)
 		l.Record(res, func() any {
-			c := cases[i]
 			n := make([]string, len(dims))
 			for k := range dims {
 				n[k] = dims[k].name + "=" + c.opt(k)
 			}
 			return map[string]any{"entry": c.Entry, "case": n, "outcome": res.Outcome}
 		})
+	}
+	if r.Thorough() {
+		r.ParallelL(hx.Product(radix), func(i int64, l *hx.Local) {
+			d := <-scr
+			idx := hx.Digits(i, radix)
+			record(l, Case{Idx: idx, Entry: "ContainerEdits.Apply"}, d)
+			if i%7 == 0 {
+				record(l, Case{Idx: idx, Entry: "Device.ApplyEdits"}, d)
+				record(l, Case{Idx: idx, Entry: "Spec.ApplyEdits"}, d)
+			}
+			scr <- d
+		})
+	}
+	r.ParallelL(int64(len(cases)), func(i int64, l *hx.Local) {
+		d := <-scr
+		record(l, cases[i], d)
+		scr <- d
 	})
 	// second pass: the host nodes are re-created with other numbers and types (a driver reload),
 	// in the same process; every case that has device nodes is applied again and judged against
@@ -518,7 +533,11 @@ func main() {
 	_ = nodes.Replace("block", "c", 9, 9)
 	_ = nodes.Replace("fifo", "p", 0, 0)
 	var again []Case
-	for _, c := range cases {
+	src := cases
+	if r.Thorough() {
+		src = pairSet
+	}
+	for _, c := range src {
 		if c.opt(5) != "none" && len(again) < 4000 {
 			again = append(again, c)
 		}
